@@ -171,8 +171,16 @@ func runC04(t *kernel.Tape, opt core.Opts) *core.Outcome {
 		}
 		classes[i] = errClass(res.Err)
 	}
+	// variant 0: the merge failure shows wherever Invoke merges equal keys, also in a step in
+	// which the model's run already returns (END fed in the same step)
+	dupSeen := variant == 0 && mr.Err == ErrMerge
+	for i := range results {
+		if variant == 0 && order[i] == PInvoke && classes[i] == ErrMerge {
+			dupSeen = true
+		}
+	}
 	switch {
-	case variant == 0 && mr.Err == ErrMerge:
+	case dupSeen:
 		// fan-in of equal map keys: every paradigm has to report the failure
 		for i, res := range results {
 			if res.Err == nil {
@@ -219,7 +227,7 @@ func runC04(t *kernel.Tape, opt core.Opts) *core.Outcome {
 		if a.Panic != nil || bb.Panic != nil || (midStream && mr.Err == ErrNode) || len(mr.AltErr) > 0 {
 			continue
 		}
-		if variant <= 1 && (mr.Err == ErrMerge || mr.Err == ErrMissingKey) || anyFan {
+		if variant <= 1 && (mr.Err == ErrMerge || mr.Err == ErrMissingKey) || anyFan || dupSeen {
 			continue // reported above under its own class
 		}
 		if (a.Err == nil) != (bb.Err == nil) {
